@@ -1,4 +1,4 @@
-import SgModel.Lemmas.Wal
+import SgModel.Lemmas.WalWriter
 /-! C15 — durability bookkeeping: the `durability` marking of the executable specification
 against the writer's `flushed` counter (core Lean only). -/
 namespace SgModel.Wal
